@@ -55,7 +55,7 @@ func (loader *VeneersLoader) load(reader io.Reader) (rewrite.LanguageRules, erro
 	decoder := yaml.NewDecoder(reader)
 	decoder.KnownFields(true)
 
-	if err := decoder.Decode(&veneers); err != nil {
+	if err := decoder.Decode(veneers); err != nil {
 		return rewrite.LanguageRules{}, err
 	}
 
